@@ -64,6 +64,8 @@ fn gen_plan(rng: &mut Rng, tier: &str) -> Plan {
                 _ => 28 + rng.usize(900),
             };
             let size = if matches!(shape, 1 | 2 | 3 | 5) { 28 + rng.usize(100) } else { size };
+            // entries beyond the per-entry maximum are refused as a whole (C08); this check is about stored entries
+            let size = size.min(max - 36 - 16 - if cfg.compression == Comp::None { 0 } else { 512 }); // incompressible payloads grow under zstd/lz4 framing
             let pages = (size + 36 + 16).div_ceil(PAGE);
             if used + pages > budget_pages {
                 break;
@@ -120,16 +122,29 @@ async fn run_plan(plan: &Plan) -> Result<Outcome, String> {
         // quiescent: every key the disk tier claims can be loaded with the latest value
         for (k, want) in &latest {
             let claims = ex.cache().storage().may_contains(k);
-            let o = ex.step(&HOp::Get { k: *k }).await;
-            match o.seen {
-                Some(Seen::Hit(s)) if s == *want => {}
-                Some(Seen::Miss) if !claims => {}
+            // straight from the disk tier (memory is bypassed)
+            let seen = match ex.cache().storage().load(k).await {
+                Ok(foyer::Load::Entry { key, value, .. }) => match crate::value::parse(&value) {
+                    Ok(s) if key == *k => Seen::Hit(s),
+                    Ok(s) => Seen::Corrupt(format!("entry of key {key} ({s:?})")),
+                    Err(b) => Seen::Corrupt(format!("{b:?}")),
+                },
+                Ok(foyer::Load::Piece { piece, .. }) => match crate::value::parse(piece.value()) {
+                    Ok(s) if *piece.key() == *k => Seen::Hit(s),
+                    other => Seen::Corrupt(format!("queued piece {other:?}")),
+                },
+                Ok(foyer::Load::Miss) => Seen::Miss,
+                Ok(foyer::Load::Throttled) => Seen::Error("throttled".into()),
+                Err(e) => Seen::Error(format!("{:?}", e.kind())),
+            };
+            match seen {
+                Seen::Hit(s) if s == *want => {}
+                Seen::Miss if !claims => {}
                 other => problems.push((
                     "claimed-key-not-loadable".into(),
-                    format!("key {k}: may_contains = {claims}, lookup gave {other:?}, latest written version {want:?}"),
+                    format!("key {k}: may_contains = {claims}, load gave {other:?}, latest written version {want:?}"),
                 )),
             }
-            ex.step(&HOp::EvictMem).await;
         }
         if !problems.is_empty() {
             break;
